@@ -43,6 +43,7 @@ const (
 	sigTimeTrav  = "C10/existence-oracle/time-travel"
 	sigSubActive = "C10/activity-oracle/subscription"
 	sigLivelock  = "C10/livelock/showDeleted-with-hidden-doc"
+	sigDelPanic  = "C10/panic/collection-delete-unfetchable-doc-indexed"
 )
 
 // Op is one step of the history.
@@ -99,8 +100,10 @@ type Case struct {
 	AvoidCommits bool `json:"avoidCommits"` // commits / latestCommits only on documents the requester may read
 	AvoidTT      bool `json:"avoidTT"`      // time travel only to commits of readable documents
 	AvoidSub     bool `json:"avoidSub"`     // subscription bursts only write readable documents
-	RelIdx bool `json:"relIdx"` // index on Book.author
-	Ops    []Op `json:"ops"`
+	// AvoidDelPanic: Collection.Delete on an indexed collection is not called for a document the caller cannot fetch
+	AvoidDelPanic bool `json:"avoidDelPanic"`
+	RelIdx        bool `json:"relIdx"` // index on Book.author
+	Ops           []Op `json:"ops"`
 }
 
 // ---------------------------------------------------------------- generator
@@ -187,7 +190,14 @@ func intLeaf(t *rapid.T, field string) string {
 	case 0:
 		return fmt.Sprintf("%s: {_eq: null}", field)
 	case 1:
-		return fmt.Sprintf("%s: {_in: [%d, %d]}", field, rapid.IntRange(1, 5).Draw(t, "v1"), rapid.IntRange(1, 5).Draw(t, "v2"))
+		// never a repeated element: `_in: [x, x]` on an indexed field yields each match twice and makes
+		// _avg over an _or of such filters nondeterministic (2, 4 or 8 for one document of age 4) on any node
+		v1 := rapid.IntRange(1, 5).Draw(t, "v1")
+		v2 := rapid.IntRange(1, 4).Draw(t, "v2")
+		if v2 >= v1 {
+			v2++
+		}
+		return fmt.Sprintf("%s: {_in: [%d, %d]}", field, v1, v2)
 	case 2:
 		return fmt.Sprintf("%s: {_nin: [%d]}", field, rapid.IntRange(1, 5).Draw(t, "v1"))
 	default:
@@ -200,7 +210,12 @@ func strLeaf(t *rapid.T, field string) string {
 	case 0:
 		return fmt.Sprintf(`%s: {_like: "%s%%"}`, field, rapid.SampledFrom([]string{"a", "b"}).Draw(t, "p"))
 	case 1:
-		return fmt.Sprintf(`%s: {_in: ["%s", "%s"]}`, field, rapid.SampledFrom(names).Draw(t, "v1"), rapid.SampledFrom(names).Draw(t, "v2"))
+		i1 := rapid.IntRange(0, len(names)-1).Draw(t, "v1")
+		i2 := rapid.IntRange(0, len(names)-2).Draw(t, "v2")
+		if i2 >= i1 {
+			i2++
+		}
+		return fmt.Sprintf(`%s: {_in: ["%s", "%s"]}`, field, names[i1], names[i2])
 	case 2:
 		return fmt.Sprintf(`%s: {_ne: "%s"}`, field, rapid.SampledFrom(names).Draw(t, "v"))
 	default:
@@ -231,7 +246,8 @@ func ownLeaf(t *rapid.T, col int) string {
 	case 7:
 		return fmt.Sprintf(`_docID: {_eq: "$%s%d"}`, docLetter(col), rapid.IntRange(0, 7).Draw(t, "d"))
 	case 8:
-		return fmt.Sprintf(`_docID: {_in: ["$%s%d", "$%s%d"]}`, docLetter(col), rapid.IntRange(0, 7).Draw(t, "d1"), docLetter(col), rapid.IntRange(0, 7).Draw(t, "d2"))
+		d1 := rapid.IntRange(0, 7).Draw(t, "d1")
+		return fmt.Sprintf(`_docID: {_in: ["$%s%d", "$%s%d"]}`, docLetter(col), d1, docLetter(col), d1+1+rapid.IntRange(0, 5).Draw(t, "d2"))
 	default:
 		if col == 1 {
 			return fmt.Sprintf(`author_id: {_eq: "$A%d"}`, rapid.IntRange(0, 5).Draw(t, "d"))
@@ -501,11 +517,12 @@ func drawCheckpoint(t *rapid.T) Op {
 func drawCase(t *rapid.T) Case {
 	c := Case{
 		// the livelock ends a case at the first showDeleted listing (a fifth of all listings): mostly avoided
-		AvoidLive:    rapid.IntRange(0, 9).Draw(t, "avoidLive") < 8,
-		AvoidCommits: rapid.Bool().Draw(t, "avoidCommits"),
-		AvoidTT:      rapid.Bool().Draw(t, "avoidTT"),
-		AvoidSub:     rapid.Bool().Draw(t, "avoidSub"),
-		RelIdx:       rapid.Bool().Draw(t, "relIdx"),
+		AvoidLive:     rapid.IntRange(0, 9).Draw(t, "avoidLive") < 8,
+		AvoidCommits:  rapid.Bool().Draw(t, "avoidCommits"),
+		AvoidTT:       rapid.Bool().Draw(t, "avoidTT"),
+		AvoidSub:      rapid.Bool().Draw(t, "avoidSub"),
+		AvoidDelPanic: rapid.IntRange(0, 3).Draw(t, "avoidDelPanic") > 0,
+		RelIdx:        rapid.Bool().Draw(t, "relIdx"),
 	}
 	// a few documents first, authors before books so that books can point at them
 	nInit := rapid.IntRange(2, 6).Draw(t, "ninit")
@@ -540,7 +557,7 @@ func evalCase(t hx.TB, c Case) {
 		st = &stats{}
 	}
 	labels := st.labelList()
-	for name, on := range map[string]bool{"livelock": c.AvoidLive, "commits": c.AvoidCommits, "time-travel": c.AvoidTT, "subscription": c.AvoidSub} {
+	for name, on := range map[string]bool{"livelock": c.AvoidLive, "commits": c.AvoidCommits, "time-travel": c.AvoidTT, "subscription": c.AvoidSub, "delete-panic": c.AvoidDelPanic} {
 		if on {
 			labels = append(labels, "case:switch-on:"+name)
 		} else {
